@@ -158,6 +158,14 @@ CORNER_SCHEMAS = [
 ]
 
 
+# unknown keywords whose names coincide with Python-level parameter / attribute names of the element constructors
+for _kw in ("self", "cls", "args", "kwargs", "value", "property_", "element", "elements", "mode", "name", "bases", "classdict", "validators", "annotation", "type_validator", "_properties", "__class__", "__init__"):
+    for _val in (1, {}, "x", None, {"type": "string"}):
+        CORNER_SCHEMAS.append({_kw: _val})
+        for _t in ("string", "integer", "array", "object", ["string", "null"]):
+            CORNER_SCHEMAS.append({"type": _t, "title": "T", _kw: _val, "anyOf": [{}]} if _val == 1 else {"type": _t, "title": "T", _kw: _val})
+
+
 def reversed_validator_order():
     """Context manager: iterate validator classes in reversed name order (harness-side patch)."""
     import contextlib
